@@ -7,7 +7,7 @@ a = json.load(open(a_path))
 b = json.load(open(b_path))
 ca, cb = a["coverage"], b["coverage"]
 ca["race_engine"] = {k: cb.get(k) for k in ("evaluations", "distinct_nontrivial", "operations", "scheduler_steps",
-    "distinct_interleavings", "probes", "runs_per_scenario", "toolchain", "runs_per_hour", "overrun_runs_discarded")}
+    "distinct_interleavings", "probes", "runs_per_scenario", "toolchain", "runs_per_hour", "overrun_runs_discarded", "unschedulable_scenarios", "workers_retired_early", "workers_restarted")}
 ca["evaluations"] = ca.get("evaluations", 0) + cb.get("evaluations", 0)
 a["wall_s"] = a.get("wall_s", 0) + b.get("wall_s", 0)
 a["violations"] = a.get("violations", 0) + b.get("violations", 0)
